@@ -164,8 +164,15 @@ func exec(ops []string, o *vu.Out) {
 			}
 			o.Fail(sig, fmt.Sprintf("%s.ToASCII not idempotent: %q -> %q -> %q,%v", pr.name, x, a, aa, aae))
 		}
-		if strings.Contains(pr.flags, "t") || vonly {
-			// transitional processing: ToUnicode is non-transitional by design, the clause is not claimed
+		if vonly {
+			// covered by the idempotence clause above for this profile
+		} else if strings.Contains(pr.flags, "t") && strings.ContainsAny(u, "\u00df\u03c2\u200c\u200d") {
+			// transitional processing maps/drops the deviation characters in U-labels but keeps them in
+			// decoded A-labels (ToUnicode is always non-transitional)
+			o.Stat("region:transitional-deviation")
+			if aue != nil || au != a {
+				o.Fail("idna-transitional-alabel-deviation-roundtrip", fmt.Sprintf("%s: ToASCII(%q)=%q but ToUnicode gives %q (holds a UTS 46 deviation character) and ToASCII of that = %q,%v", pr.name, x, a, u, au, aue))
+			}
 		} else if anyLabel(u, hasAce) {
 			o.Stat("region:tounicode-yields-ace-label")
 			if aue != nil || au != a {
